@@ -210,6 +210,8 @@ SOLO_COMPOSITES = [
     L("allof_prop_enum", {"allOf": [obj({"name": STR, "k": {"type": "string", "enum": ["a", "b"]}}, ["name"]), obj({"k": {"type": "string", "enum": ["b", "c"]}})]}),
     L("allof_prop_obj", {"allOf": [obj({"name": STR, "o": obj({"x": INT})}, ["name"]), obj({"o": obj({"y": STR}, ["y"])})]}),
     L("allof_prop_array", {"allOf": [obj({"name": STR, "v": {"type": "array", "items": INT}}, ["name"]), obj({"v": {"type": "array", "minItems": 1}})]}),
+    # typed non-string enum over an object: a constrained newtype around an inner struct
+    L("obj_enum", {"type": "object", "properties": {"label": STR}, "enum": [{"label": "a"}, {"label": "b"}]}, enf=True),
     L("untagged_arr_tuple", {"anyOf": [{"type": "array", "items": INT, "maxItems": 1},
                                        {"type": "array", "items": [INT, INT], "minItems": 2, "maxItems": 2}]}, ff=False),
     L("untagged_tuples_f64", {"oneOf": [{"type": "array", "items": [{"type": "number"}, {"type": "number"}], "minItems": 2, "maxItems": 2},
@@ -514,6 +516,29 @@ def array_family(tier):
     return out
 
 
+# ---- string-constraint family: every combination of minLength x maxLength x pattern ---------------------------
+def string_family(tier):
+    out = []
+    for mn in (None, 0, 1, 2):
+        for mx in (None, 0, 2, 3):
+            for pat in (None, "^[a-z]*$"):
+                if mn is None and mx is None and pat is None:
+                    continue
+                if mn is not None and mx is not None and mn > mx:
+                    continue
+                s = {"type": "string"}
+                if mn is not None:
+                    s["minLength"] = mn
+                if mx is not None:
+                    s["maxLength"] = mx
+                if pat:
+                    s["pattern"] = pat
+                sh = L("strc[min=%s,max=%s,pat=%s]" % (mn, mx, "y" if pat else "n"), s, ff=True, enf=True, strish=True, fam=True)
+                sh["tg"] = {"sc_min": mn, "sc_max": mx, "sc_pat": bool(pat)}
+                out.append(sh)
+    return out
+
+
 def shapes_depth2(tier):
     """(L ∪ K(default leaves)) — list of shape dicts."""
     out = []
@@ -532,6 +557,7 @@ def shapes_depth2(tier):
     out.extend(union_family(tier))
     out.extend(refine_family(tier))
     out.extend(array_family(tier))
+    out.extend(string_family(tier))
     return out
 
 
